@@ -205,3 +205,21 @@ PROPS["C17"] = dict(
          "accumulate. Non-trivial = distinct run that closed during a parked cycle, a failed open, or a repetition run.",
     assumptions=["timers, finalizers and runtime-internal goroutines are not examined", "writers parked in flushTick at Close are callers, outside the statement"],
 )
+
+PROPS["C09"] = dict(
+    modules=["Sth.Props.C01", "Sth.Props.C08"],
+    theorems=list(CORE_RL),
+    runs=[dict(engine="seq", quick=300, thorough=10000, extra=["-profile", "c09"], nontrivial=["rebucketed", "open-err:wrong-index-file-size", "open-err:wrong-primary-file-size"]),
+          dict(engine="crash", quick=24, thorough=1000, extra=["-profile", "c09"], nontrivial=["translate-crash"])],
+    shrink_budget=0,
+    crash_lines=True,
+    rule="C01-style traces in which the store is closed and reopened with another index bit size (8..16, rarely up to 24; contents from "
+         "the preceding history incl. multi-file indexes and shared prefixes), with a mismatching index or primary file-size limit (must be "
+         "refused with the specific error; the original settings then find the contents intact), or both; after every reopen every key is "
+         "read back against the map and the re-bucketed index files, header, snapshot and in-memory table are compared byte-for-byte with "
+         "the Lean model of translateIndex (the new index's flush order is read back from its files). Second run: the crash engine "
+         "captures the directory at every point inside the translation (each file move, header move, removal) and recovers each image "
+         "with the new bit size: an open that succeeds must not miss keys. Non-trivial = distinct trace with a re-bucketing / a refused "
+         "open / crash images inside the translation.",
+    assumptions=["IndexFileSize 0 means 'default' to the new index (the re-bucketed index then uses the default limit): modelled as the code does it"],
+)
